@@ -517,3 +517,72 @@ func c06containerElems(c *core.Check) {
 			fmt.Sprintf("the container's Go type depends on %v but %s renders its elements without looking at it: under value_type_in_container a constant list of structs is rendered []P{&P{…}} and does not compile", missing, h))
 	}
 }
+
+// c06numericIdentifier: a constant may be initialised with the name of another constant of a different numeric type
+// (`const i32 B = A  const double D = B`, `list<double> = [B]`). Integer constants are emitted typed once they refer to
+// another constant (`B = int32(A)`), so the name cannot be dropped into a context of another type as it stands. onInt
+// converts the referenced name to the target type; onDouble has to do the same (sibling agreement). Rule: in both, the
+// value obtained from getIDValue does not reach the return as it was looked up — it passes through a formatting call or a
+// concatenation first.
+func c06numericIdentifier(c *core.Check) {
+	info := c.Prog.Pkg(golangRel).TypesInfo
+	for _, name := range []string{"onInt", "onDouble"} {
+		fd := c.Prog.FuncDecl(golangRel, "Resolver."+name)
+		key := golangRel + ".(Resolver)." + name + "/identifier"
+		if fd == nil {
+			c.Unknown("anchor", key, "", "missing")
+			continue
+		}
+		decided := false
+		ast.Inspect(fd.Body, func(n ast.Node) bool {
+			is, ok := n.(*ast.IfStmt)
+			if !ok || is.Init == nil || decided {
+				return true
+			}
+			as, ok := is.Init.(*ast.AssignStmt)
+			if !ok || len(as.Rhs) != 1 || len(as.Lhs) < 1 {
+				return true
+			}
+			call, ok := as.Rhs[0].(*ast.CallExpr)
+			if !ok {
+				return true
+			}
+			if fn := rules.Callee(info, call); fn == nil || fn.Name() != "getIDValue" {
+				return true
+			}
+			v := rules.ExprString(as.Lhs[0])
+			converted := false
+			raw := false
+			for _, st := range is.Body.List {
+				switch x := st.(type) {
+				case *ast.AssignStmt:
+					for i, l := range x.Lhs {
+						if rules.ExprString(l) == v && i < len(x.Rhs) {
+							if _, isCall := x.Rhs[i].(*ast.CallExpr); isCall {
+								converted = true
+							}
+							if _, isBin := x.Rhs[i].(*ast.BinaryExpr); isBin {
+								converted = true
+							}
+						}
+					}
+				case *ast.ReturnStmt:
+					if len(x.Results) > 0 {
+						if rules.ExprString(x.Results[0]) == v {
+							raw = !converted
+						}
+					}
+				}
+			}
+			decided = true
+			c.Decide(!raw, "numeric-identifier-converted", key, c.Prog.Rel(is.Pos()),
+				"the referenced constant's name is converted to the target type before it is returned",
+				"the name of the referenced constant is returned as it is: `const i32 A = 1  const i32 B = A  const double D = B` makes D an int32 constant, and `const list<double> L = [B]` or a field default `double d = B` does not compile (cannot use B (constant of type int32) as float64 value)")
+			return true
+		})
+		if !decided {
+			c.Unknown("numeric-identifier-converted", key, c.Prog.Rel(fd.Pos()), "the getIDValue arm was not found")
+		}
+	}
+	c.Min("numeric-identifier-converted", 2)
+}
